@@ -24,14 +24,21 @@ inductive TyDef where
   | map (k v : TyDef)
   | struct (name : String) (fs : List (String × Bool × String × String × TyDef))
   | bad (kind : String)
+  | ext (name : String)      -- a library struct type known by name: null.Int, null.Bool, null.Float, null.String, null.Time
 deriving Repr
 
 abbrev FieldDefs := List (String × Bool × String × String × TyDef)
 
+/-- A Plenc instance's configuration: the two options, whether the `null`
+package's codecs were added, and the user's own registrations
+`(Go type name, tag, codec)` (a later registration for the same key wins, as
+`sync.Map.Store` overwrites). -/
 structure Cfg where
   protoTime : Bool := false
   protoArrays : Bool := false
-deriving Repr, DecidableEq
+  nullCodecs : Bool := false
+  custom : List (String × String × Ty) := []
+deriving Repr
 
 /-- `reflect.Kind` classes the builder switches on. -/
 inductive Kind where
@@ -47,6 +54,7 @@ def TyDef.kind : TyDef → Kind
   | .map _ _ => .map
   | .struct _ _ => .struct
   | .bad _ => .other
+  | .ext _ => .struct
 
 /-- the `(type, tag) → codec` table of `RegisterDefaultCodecs` for the unnamed
 basic types. Pinned to the source by `Gen/Tie.lean`. -/
@@ -62,12 +70,49 @@ def regBasic (b : Basic) (tag : String) : Option Ty :=
   | .str, "intern" => some (.str true)
   | _, _ => none
 
-/-- `registry.Load(typ, tag)` on the default registrations: exact type match only. -/
-def regLoad (cfg : Cfg) : TyDef → String → Option Ty
-  | .basic b, tag => regBasic b tag
-  | .slice (.basic (.uint 8)), "" => some .bytes
-  | .time, "" => some (.time cfg.protoTime)
-  | _, _ => none
+def Basic.goName : Basic → String
+  | .bool => "bool" | .f32 => "float32" | .f64 => "float64" | .str => "string"
+  | .int w => if w = 64 then "int64" else s!"int{w}"
+  | .uint w => if w = 64 then "uint64" else s!"uint{w}"
+
+/-- the name under which a type can carry a user registration (exact type match). -/
+def TyDef.regName : TyDef → Option String
+  | .basic b => some b.goName
+  | .time => some "time.Time"
+  | .named n _ => some n
+  | .struct n _ => if n = "" then none else some n
+  | .ext n => some n
+  | .slice (.basic (.uint 8)) => some "[]byte"
+  | _ => none
+
+def customLoad (cfg : Cfg) (d : TyDef) (tag : String) : Option Ty :=
+  match d.regName with
+  | none => none
+  | some n => (cfg.custom.reverse.find? fun e => e.1 == n && e.2.1 == tag).map (·.2.2)
+
+/-- the codecs of package `null` (null/null.go `AddCodecs`): at the value level a
+null.X is "absent, or present with a payload", i.e. exactly a pointer to the
+payload type (Omit = !Valid, Read sets Valid, Descriptor flags explicit
+presence); null.Time always uses the non-compat TimeCodec. -/
+def nullCodec : String → Option Ty
+  | "null.Int" => some (.ptr (.int 64))
+  | "null.Bool" => some (.ptr .bool)
+  | "null.Float" => some (.ptr .f64)
+  | "null.String" => some (.ptr (.str false))
+  | "null.Time" => some (.ptr (.time false))
+  | _ => none
+
+/-- `registry.Load(typ, tag)`: exact type match only; user registrations shadow the defaults. -/
+def regLoad (cfg : Cfg) (d : TyDef) (tag : String) : Option Ty :=
+  match customLoad cfg d tag with
+  | some c => some c
+  | none =>
+    match d, tag with
+    | .basic b, tag => regBasic b tag
+    | .slice (.basic (.uint 8)), "" => some .bytes
+    | .time, "" => some (.time cfg.protoTime)
+    | .ext n, "" => if cfg.nullCodecs then nullCodec n else none
+    | _, _ => none
 
 /-- `strconv.Atoi` restricted to what a tag can hold: optional sign, decimal
 digits, error on anything else or on int64 overflow. -/
@@ -108,13 +153,25 @@ def sliceWrap (cfg : Cfg) (tag : String) (elemIsPtr : Bool) (sub : Ty) : Res Ty 
   | _ => .err
 
 mutual
-/-- `Plenc.CodecForTypeRegistry(registry, typ, tag)`. -/
+/-- `Plenc.CodecForTypeRegistry(registry, typ, tag)`: `registry.Load` first
+(`regLoad`), then the kind switch. -/
 def build (cfg : Cfg) : TyDef → String → Res Ty
-  | .basic b, tag => match regBasic b tag with | some c => .ok c | none => .err
+  | .basic b, tag =>
+      match regLoad cfg (.basic b) tag with
+      | some c => .ok c
+      | none => .err                        -- codecForBasicType: "no codec available"
   | .time, tag =>
-      if tag == "" then .ok (.time cfg.protoTime)
-      else .ok (.struct "Time" [])         -- no exact hit: built as a struct with no exported fields
-  | .named n t, tag => buildNamed cfg n t tag
+      match regLoad cfg .time tag with
+      | some c => .ok c
+      | none => .ok (.struct "Time" [])     -- no exact hit: built as a struct with no exported fields
+  | .ext n, tag =>
+      match regLoad cfg (.ext n) tag with
+      | some c => .ok c
+      | none => .err                        -- exported fields without plenc tags
+  | .named n t, tag =>
+      match customLoad cfg (.named n t) tag with
+      | some c => .ok c
+      | none => buildNamed cfg n t tag
   | .ptr t, tag =>
       if t.kind = .map then .err else
       match build cfg t tag with
@@ -134,16 +191,23 @@ def build (cfg : Cfg) : TyDef → String → Res Ty
       | .ok kc, .ok vc => .ok (.map kc vc (tag == "proto"))
       | .ok _, e => e
       | e, _ => e
-  | .struct name fs, _ =>
-      match buildFields cfg fs with
-      | .ok cfs => if hasDup (cfs.map (·.1)) then .err else .ok (.struct name cfs)
-      | .err => .err | .panic => .panic | .hang => .hang
+  | .struct name fs, tag =>
+      match customLoad cfg (.struct name fs) tag with
+      | some c => .ok c
+      | none =>
+        match buildFields cfg fs with
+        | .ok cfs => if hasDup (cfs.map (·.1)) then .err else .ok (.struct name cfs)
+        | .err => .err | .panic => .panic | .hang => .hang
   | .bad _, _ => .err
 /-- a defined type: the kind switch on its underlying type, without the exact
 registry hits of the unnamed type. -/
 def buildNamed (cfg : Cfg) (n : String) : TyDef → String → Res Ty
-  | .basic b, tag => match regBasic b tag with | some c => .ok c | none => .err
+  | .basic b, tag =>
+      match regLoad cfg (.basic b) tag with
+      | some c => .ok c
+      | none => .err
   | .time, _ => .ok (.struct n [])
+  | .ext _, _ => .err
   | .named _ t, tag => buildNamed cfg n t tag
   | .ptr t, tag =>
       if t.kind = .map then .err else
@@ -182,7 +246,14 @@ def buildFields (cfg : Cfg) : FieldDefs → Res Fields
         let sub := if wantIntern then "" else pfx.getD ""
         match build cfg t sub with
         | .ok c =>
-          let c := if wantIntern then (match c with | .str false => .str true | c => c) else c
+          -- `fc.(Interner)`: StringCodec and the null.String codec implement it
+          let isNullStr := match t with | .ext "null.String" => true | _ => false
+          let c := if wantIntern then
+              (match c with
+               | .str false => .str true
+               | .ptr (.str false) => if isNullStr then .ptr (.str true) else c
+               | c => c)
+            else c
           (match buildFields cfg r with
            | .ok cfs => .ok ((idx.toNat, fieldName goName json, c) :: cfs)
            | e => e)
